@@ -483,6 +483,31 @@ def run_stream(case):
         if not ok:
             cls = 'negzero' if 0x8000 in offs else 'other'
             out.fail('stream:lh-decode:' + cls, 'bs %d base (%r,%r) offsets %r: expected x=%r y=%r got %r' % (bs, fx, fy, offs, wx, wy, d))
+    # what was decoded stays what it is: a consumer may keep the packet while later packets of the same kind are decoded
+    import copy
+    snap = copy.deepcopy(p.data)
+    for k2 in range(2):
+        pk2 = CRTPPacket()
+        pk2.set_header(6, 1)
+        if case['kind'] == 'range':
+            pk2.data = bytes([0]) + struct.pack('<Bf', 7 + k2, 1.5 + k2) + struct.pack('<Bf', 200, -3.25)
+        else:
+            pk2.data = bytes([10]) + struct.pack('<BfHHHfHHH', (case['bs'] + 1 + k2) & 0xff, 0.75 + k2, 0x3c00, 0x3800, 0xb800, -0.25, 0x3400, 0xbc00, 0x0001)
+        try:
+            cf.cbs[0][1](pk2)
+        except Exception:  # noqa
+            break
+
+    def _same(a, b):
+        if isinstance(a, dict):
+            return isinstance(b, dict) and set(a) == set(b) and all(_same(a[k_], b[k_]) for k_ in a)
+        if isinstance(a, (list, tuple)):
+            return isinstance(b, (list, tuple)) and len(a) == len(b) and all(_same(x, y) for x, y in zip(a, b))
+        if isinstance(a, float) and isinstance(b, float):
+            return (math.isnan(a) and math.isnan(b)) or a == b
+        return a == b
+    if not _same(p.data, snap):
+        out.fail('stream:result-changed-by-later-packet', '%s packet decoded as %r, after two more packets the same object reads %r' % (case['kind'], snap, p.data))
     return out
 
 
